@@ -107,4 +107,27 @@ def rewriteUnpackOutput (isUnpack runOnNpu : Bool) (axis : Int) (inRank : Nat) (
   let desired := outShape.take cut ++ [1] ++ outShape.drop cut
   some ⟨ax + (4 - (desired.length : Int)), desired, (full4 desired 1).take 4⟩
 
+/-! ## 19. PACK (the `Op.Pack` branch of `rewrite_concat_ops`) -/
+
+/-- every input gets the operator shape `in[:axis] ++ [1] ++ in[axis:]` (4-D as above), a negative axis counts the dimensions of
+    the OUTPUT (input rank + 1), input `idx` is written at offset `idx` along the 4-D axis, and the final assertion compares the
+    OFM dimension at `axis` with the number of inputs (`none` = AssertionError) -/
+structure PackOut where
+  axis4D : Int
+  shape4 : List Nat
+  offsets : List Nat
+deriving Repr, DecidableEq, Inhabited
+
+/-- Python list indexing `l[i]`: a negative index counts from the end, out of range is an IndexError (`none`) -/
+def pyIndex (l : List Nat) (i : Int) : Option Nat :=
+  if i < 0 then (if (-i).toNat ≤ l.length then l[l.length - (-i).toNat]? else none) else l[i.toNat]?
+
+def rewritePack (axis : Int) (inShape : List Nat) (count : Nat) (ofmShape : List Nat) : Option PackOut :=
+  let ax : Int := if axis < 0 then (inShape.length : Int) + 1 + axis else axis
+  let cut : Nat := if ax < 0 then inShape.length - (-ax).toNat else min ax.toNat inShape.length
+  let desired := inShape.take cut ++ [1] ++ inShape.drop cut
+  -- `ofm.shape[axis]` with the RAW attribute (Python indexing: negative from the end; out of range = IndexError)
+  if pyIndex ofmShape axis ≠ some count then none else
+  some ⟨ax + (4 - (desired.length : Int)), (full4 desired 1).take 4, List.range count⟩
+
 end VelaVerif.Rewrites3
